@@ -16,6 +16,8 @@ import JT.Model.Term
 import JT.Gen.TermDefaults
 import JT.Model.AttStream
 import JT.Model.Codec2
+import JT.Model.Codec3
+import JT.Model.Codec4
 /-!
 Line-protocol driver: one operation per input line, one result line per operation.
 `<idx> <op> <args…>` ↦ `<idx> <result>`.
@@ -192,6 +194,18 @@ def rtModel (ty : String) (b : Bytes) : Option (Res Bytes) :=
     | "P0x9212" => some (match Codec.parse9212 b with | .ok v => .ok (Codec.encode9212 v) | .err => .err | .panic => .panic)
     | _ => none
 
+/-- parse-then-encode through the value-level models of `JT/Model/Codec3.lean` (round-trip theorems in `JT/Proof/Codec3.lean`) -/
+def rtModel3 (ty : String) (b : Bytes) : Option (Res Bytes) :=
+  match ty with
+  | "P0x8100" => some ((Codec3.parseP0x8100 b).bind fun v => .ok (Codec3.encodeP0x8100 v))
+  | "P0x9101" => some ((Codec3.parseP0x9101 b).bind fun v => .ok (Codec3.encodeP0x9101 v))
+  | "P0x9201" => some ((Codec3.parseP0x9201 b).bind fun v => .ok (Codec3.encodeP0x9201 v))
+  | "P0x9206" => some ((Codec3.parseP0x9206 b).bind fun v => .ok (Codec3.encodeP0x9206 v))
+  | "T0x1205" => some ((Codec3.parseT0x1205 b).bind fun v => .ok (Codec3.encodeT0x1205 v))
+  | "P0x9102" => some ((Codec3.parseP0x9102 b).bind fun v => .ok (Codec3.encodeP0x9102 v))
+  | "P0x9207" => some ((Codec3.parseP0x9207 b).bind fun v => .ok (Codec3.encodeP0x9207 v))
+  | _ => none
+
 /-- outcome class of decoding (C03) for the decoders that have a Lean model -/
 def resClass {α} : Res α → String
   | .ok _ => "ok" | .err => "err" | .panic => "panic"
@@ -223,6 +237,11 @@ def totModel2 (ty ctx : String) (b : Bytes) : Option String :=
   | "P0x8801" => some (resClass (Codec2.parseP0x8801 b))
   | "T0x1005" => some (resClass (Codec2.parseT0x1005 b))
   | "P0x9208" => some (resClass (Codec2.parseP0x9208 (dialectOfCtx ctx) b))
+  | "T0x0200AdditionExtension0x64" => some (resClass (Codec4.parseExt64 (dialectOfCtx ctx) b))
+  | "T0x0200AdditionExtension0x65" => some (resClass (Codec4.parseExt65 (dialectOfCtx ctx) b))
+  | "T0x0200AdditionExtension0x66" => some (resClass (Codec4.parseExt66 (dialectOfCtx ctx) b))
+  | "T0x0200AdditionExtension0x67" => some (resClass (Codec4.parseExt67 (dialectOfCtx ctx) b))
+  | "T0x0200AdditionExtension0x70" => some (resClass (Codec4.parseExt70 (dialectOfCtx ctx) b))
   | _ => none
 
 def totModel (ty : String) (ctx : String) (b : Bytes) : Option String :=
@@ -567,7 +586,12 @@ def runOp (op : String) (args : List String) : String :=
         match ty with
         | "jt808.JTMessage" => (match Frame.decode b with | .ok _ => "ok" | .err => "err" | .panic => "panic")
         | "jt1078.Packet" => (match Rtp.decode b with | .ok _ => "ok" | _ => "err")
-        | _ => "skip"
+        | _ =>
+          match rtModel3 ty b with
+          | some (.ok e) => s!"ok {hexOrDash e}"
+          | some .err => "err"
+          | some .panic => "panic"
+          | none => "skip"
   | "tot", ty :: ctx :: body :: _ =>
     match ofHex body with
     | none => "bad-op"
